@@ -31,7 +31,7 @@ void vmock_reset_config(void)
 {
     memset(&VM, 0, sizeof VM);
     for (int i = 0; i < VM_NCAM; ++i)
-        VM.cam[i] = (struct vm_cam_cfg){ .width = 3, .height = 1, .type = SampleType_u8, .exposure_ms = 10, .fail_get_frame_at = -1, .fail_start_at = -1 };
+        VM.cam[i] = (struct vm_cam_cfg){ .width = 3, .height = 1, .type = SampleType_u8, .exposure_ms = 10, .fail_get_frame_at = -1, .reshape_at = -1, .fail_start_at = -1 };
     for (int i = 0; i < VM_NSTORE; ++i)
         VM.store[i] = (struct vm_store_cfg){ .append_ms = 0, .fail_append_at = -1, .fail_start_at = -1 };
     for (int i = 0; i < VM_NCAM + VM_NSTORE; ++i) { VM.dev[i].kind = i < VM_NCAM ? 1 : 2; VM.dev[i].idx = i < VM_NCAM ? i : i - VM_NCAM; }
@@ -192,6 +192,8 @@ static enum DeviceStatusCode vcam_get_frame(struct Camera* c, void* im, size_t* 
     const struct vm_cam_cfg* cfg = &VM.cam[d->idx];
     int k = d->calls_in_run++;
     logcall(d, VC_GET_FRAME, k); monitor(d, VC_GET_FRAME);
+    if (cfg->reshape_at >= 0 && cfg->reshape_mode == 1 && k == cfg->reshape_at &&
+        (size_t)cfg->reshape_w * cfg->reshape_h * type_bytes(cfg->type) <= *nbytes) { VM.cam[d->idx].width = cfg->reshape_w; VM.cam[d->idx].height = cfg->reshape_h; vs_event(45); }
     struct ImageShape s;
     cam_shape(d->idx, &s);
     size_t need = (size_t)cfg->width * cfg->height * type_bytes(cfg->type);
@@ -220,6 +222,7 @@ static enum DeviceStatusCode vcam_get_frame(struct Camera* c, void* im, size_t* 
         f->npix_bytes = (uint32_t)(need < VM_MAXPIX ? need : VM_MAXPIX);
         memcpy(f->pix, px, f->npix_bytes);
     }
+    if (cfg->reshape_at >= 0 && cfg->reshape_mode == 0 && k + 1 == cfg->reshape_at) { VM.cam[d->idx].width = cfg->reshape_w; VM.cam[d->idx].height = cfg->reshape_h; vs_event(45); }
     return Device_Ok;
 }
 
